@@ -314,6 +314,12 @@ pub fn incidents() -> Vec<Incident> {
     out
 }
 
+/// Serial number of the most recent tracked allocation / free.
+pub fn current_serial() -> usize {
+    let guard = lock();
+    tables(&guard).serial
+}
+
 /// Number of tracked live blocks right now.
 pub fn live_tracked() -> usize {
     let guard = lock();
